@@ -74,6 +74,8 @@ T = [
     ("minmax_chains crashes on a #sum element with an empty tuple", "C03", ["minmax_chains"], "a(S) :- S = #sum { : d(X) }.\n", [["d", 1]], [["a", 1]], None, None, ["c03"], {}),
     ("math crashes on a modulo by the constant zero", "C03", ["math"], "b(Y) :- d(X), Y = X \\ 0.\n", [["d", 1]], [["b", 1]], None, None, ["c03"], {}),
     ("minmax_chains makes the result variable a group variable", "C02", ["minmax_chains"], "{ sel(P,V) } :- skill(P,V).\n:~ grp(P); X = #max { V : sel(P,V) }; skill(P,X). [X@1,P]\n", [["grp", 1], ["skill", 2]], [["sel", 2]], [["grp(b)", "skill(b,3)"]], {"kind": "set", "voc": "out", "cost": True}, ["equiv"], {}),
+    ("min/max results behind a double negation", "C03", ["minmax_chains"], "{ sel(P,V) } :- skill(P,V).\nbest(P,X) :- grp(P); X = #max { V: sel(P,V) }.\n:~ not not best(P,X); skill(P,X). [X@1,P]\n", [["grp", 1], ["skill", 2]], [["sel", 2]], None, None, ["c03"], {}),
+    ("sum_chains leaves aggregates alone in statements that use the variable __PREV", "C07", ["sum_chains"], "1 >= { shift(G0,P): len(P) } :- day(G0).\na(__PREV) :- __PREV = #sum { N,f(G0): shift(G0,N); B,g(P): pl(P,B) }.\n", [["day", 1], ["len", 1], ["pl", 2]], [["a", 1], ["shift", 2]], [["day(1)", "len(1)", "len(2)", "pl(1,1)"]], {"kind": "set", "voc": "inout", "cost": False}, ["equiv", "c07"], {}),
 ]
 
 
